@@ -14,7 +14,7 @@ Extraction "model.ml"
   MemSpec.accept MemSpec.fl_init MemSpec.fl_request MemSpec.fl_recycle
   Audit.audit Audit.dom_ok
   Reach.dpost Reach.dpre Reach.dist_bfs Reach.dmin
-  Reach.post_dd Reach.pre_dd Reach.reach_dd Reach.rreach_dd Reach.vm_dd Reach.mv_dd Reach.rel_sz Reach.cross_dd
+  Reach.sat_dd Reach.reach_fs_dd Reach.post_dd Reach.pre_dd Reach.reach_dd Reach.rreach_dd Reach.vm_dd Reach.mv_dd Reach.rel_sz Reach.cross_dd
   Enum.enum Enum.cardinality Enum.node_count Enum.edge_count Enum.members Enum.index_table Enum.get_element
   Reorder.permute_dd
   Lifecycle.ls_init Lifecycle.lstep.
